@@ -3,6 +3,7 @@ CONSTANTS Timers = {0, 1, 2}
           AutoOffs = {3600, 3719}
           Step = 1800
           MaxAir = 2
+          Fam = "heater"
 INVARIANT TypeOK
 INVARIANT PowerAndTimerAgree
 INVARIANT ReportedNormalised
